@@ -44,6 +44,12 @@ def draws_in(prog: Program, f: Func) -> List[Draw]:
     return out
 
 
+def _used_as_mapping(f: Func, e: ast.AST) -> bool:
+    """the function reads `e` through .keys() / .values() / .items() somewhere: e is a mapping"""
+    t = astx.u(e)
+    return any(isinstance(n, ast.Attribute) and n.attr in ("keys", "values", "items") and astx.u(n.value) == t for n in astx.walk_all(f.node))
+
+
 def sigs(f: Func, e: ast.AST, at: ast.AST, depth: int = 0) -> Set[tuple]:
     N = Normalizer(f.node, inline=False)
     if depth > 14 or e is None:
@@ -51,9 +57,13 @@ def sigs(f: Func, e: ast.AST, at: ast.AST, depth: int = 0) -> Set[tuple]:
     if isinstance(e, ast.Call):
         fn = astx.u(e.func)
         if fn in ("list", "tuple", "np.array", "numpy.array", "np.power", "numpy.power", "np.square", "np.abs", "np.asarray") and e.args:
+            if fn in ("list", "tuple") and isinstance(e.args[0], (ast.Name, ast.Attribute, ast.Subscript)) and _used_as_mapping(f, e.args[0]):
+                return {("keys", N.key(e.args[0]))}   # iterating a mapping yields its keys
             return sigs(f, e.args[0], at, depth + 1)
         if isinstance(e.func, ast.Attribute) and e.func.attr in ("astype", "copy", "tolist"):
             return sigs(f, e.func.value, at, depth + 1)
+        if fn == "len" and e.args and isinstance(e.args[0], (ast.Name, ast.Attribute, ast.Subscript)) and _used_as_mapping(f, e.args[0]):
+            return {("keys", N.key(e.args[0]))}
         if fn == "len" and e.args:
             # population given by its size: the population is the thing measured
             return sigs(f, e.args[0], at, depth + 1)
@@ -127,7 +137,8 @@ def aligned(pop_sigs: Set[tuple], prob_sigs: Set[tuple]) -> Tuple[bool, str]:
         return False, "no signature"
     for ps in pop_sigs:
         for ws in prob_sigs:
-            ok = (ps[0] == "keys" and ws == ("values", ps[1])) or ws == ("map", ps) or ws == ("len", ps) \
+            # (iterating a mapping D yields its keys: a population `list(D)` is aligned with D.values())
+            ok = (ps[0] in ("keys", "atom") and ws == ("values", ps[1])) or ws == ("map", ps) or ws == ("len", ps) \
                 or (ws[0] == "map" and ws[1] == ("map", ps))  # normalised map of a map over the population
             if not ok:
                 return False, f"population derives from {ps} but probabilities from {ws}"
